@@ -234,3 +234,12 @@ def fmt(e, ind=0):
     if k == "panic":
         return e["name"] + "!(..)"
     return "<%s>" % k
+
+
+def ctor_name(e):
+    """'Some' / 'None' / 'Ok' / 'Err' / variant name when `e` is a constructor call or a unit-variant path; else None."""
+    if e.get("k") == "call" and e["f"].get("k") == "path" and e["f"].get("dk", "").startswith("Ctor"):
+        return e["f"]["def"].rsplit("::", 1)[-1]
+    if e.get("k") == "path" and e.get("dk", "").startswith("Ctor"):
+        return e["def"].rsplit("::", 1)[-1]
+    return None
